@@ -223,6 +223,8 @@ def judge(cfg, x):
 
 
 def _coarse(op):
+    if op == "call1_changed":
+        return "call-changed-source"      # its first step wipes the function's directory, like a clear()
     return "call" if op.startswith("call") else op
 
 
